@@ -85,7 +85,7 @@ Definition rd_page_v2_cat (selfmade : bool) (ak : N) (cd : coldesc) (codec : Z) 
               else match raw with [] => RBad "read_byte past the end" | w :: r => ROk (w, r) end) in
   let '(bw, r) := wr in
   let put := put_codes (cd_maxdef cd) n nn lv in
-  if ((bw =? 8) || (bw =? 16) || (bw =? 32)) && selfmade then
+  if ((bw =? 8) || (bw =? 16) || (bw =? 32)) && (selfmade && guard_idx n_values r) then
     match uleb_dec r with
     | None => RBad "varint past the end"
     | Some (_, out) =>
